@@ -13,6 +13,11 @@ EMPHASIS = {
  (b) behaviour that depends on what the kernel returns at one specific call: an error code, a short count, EAGAIN/EINTR at exactly the k-th call, a descriptor number being reused by the kernel, spurious readiness;
  (c) an interaction between two library modules (e.g. timers with descriptors, events with tasks, signals with child-wait, pump with descriptors, work pool with timers);
  (d) a bug that needs at least three steps of history to set up the state in which it bites.''',
+ 6: '''IMPORTANT for this round (five earlier rounds already used the central functions, fallback and tear-down paths, unusual API sequences, module interactions, shared helpers, wrapping counters, second-use effects, conversions, batches and return values): aim for a change whose effect needs SCALE or RANGE to show - one of
+ (a) it only manifests beyond a threshold that small experiments stay under: more than about eight loop iterations in a particular state, more than a handful of objects of one kind, a count or size or time value beyond a few units (but still realistic: hundreds of timers, dozens of descriptors, seconds versus milliseconds, kilobytes);
+ (b) it depends on a specific numeric relation between two quantities (equal, off by exactly one, one a multiple of the other, sum crossing a power of two or a second boundary);
+ (c) it depends on the ORDER in which three or more objects were registered, became ready, or were removed.
+State the threshold or relation precisely in NOTES.md.''',
  5: '''IMPORTANT for this round (four earlier rounds already used the central functions, fallback and tear-down paths, unusual API sequences, module interactions, shared helpers, wrapping counters and second-use effects): aim for one of
  (a) arithmetic and conversions on the way to or from the kernel: rounding of timeouts (nanoseconds to milliseconds, negative or huge differences, tv_nsec normalisation, 32-bit truncation of a 64-bit value), byte counts and offsets, event-mask translation between the library's bands and the kernel's bits;
  (b) scale: more objects than some internal batch, array or buffer holds at once (many ready descriptors in one poll, many pending events, many timers due at the same instant, many children exiting together), so that a second pass, a resize or a truncation path is exercised;
@@ -43,8 +48,11 @@ EMPHASIS
 Keep the patch small (1-15 lines), plausible as a maintainer's cleanup or optimisation. Finish by replying with a short summary: the file/lines changed, the trigger, and the observed pass/fail results.
 '''
 subprocess.check_call(['mkdir', '-p', root])
+only = set(sys.argv[3].split(',')) if len(sys.argv) > 3 else None
 for l in open('/verif/properties.jsonl'):
     p = json.loads(l)
+    if only and p['id'] not in only:
+        continue
     i = p['id'][1:]
     wt = '%s/C%s' % (root, i)
     subprocess.check_call(['git', '-C', '/repo', 'worktree', 'add', '-q', wt, 'HEAD'])
